@@ -81,6 +81,8 @@ def base_instance(rng, *, vtype=None, k=None, N=None, hermitian_mode=True, fdkin
             # symbols of the symbolic containers in NON-alphabetical order ("q" < "a" is false): an explicit
             # `symbols=` list fixes the order of the order indices, monomial keys are sorted by the library
             inst["symnames"] = ["q", "a", "m", "z"]
+            # numpy / sparse presentations: integer-valued terms in an INTEGER dtype in half of the instances
+            inst["int_dtype"] = rng.random() < 0.5
             if (inst["vtype"] == "sympy" and inst["d"] <= 3 and inst["N"] <= 3 and rng.random() < 0.3
                     and all(hermitian.epair(e)[1] == 0 for e in inst["E"])):
                 inst["symbolic_consts"] = True      # symbolic unperturbed levels and coupling constant
